@@ -2,6 +2,8 @@ package props
 
 import (
 	"fmt"
+	"os"
+	"path/filepath"
 	"strings"
 	"sync"
 	"testing"
@@ -437,6 +439,39 @@ var propC06 = Prop[C06Case]{
 func TestC06(t *testing.T)       { Run(t, propC06) }
 func TestC06Replay(t *testing.T) { Replay(t, propC06) }
 
+// repoTestStrings collects the string literals of the repository's own test files that
+// look like expressions: the starting corpus of the byte-level fuzzer.
+func repoTestStrings() []string {
+	dir := envOr("VERIF_REPO_DIR", "/repo")
+	files, _ := filepath.Glob(filepath.Join(dir, "*_test.go"))
+	seen := map[string]bool{}
+	var out []string
+	for _, f := range files {
+		b, err := os.ReadFile(f)
+		if err != nil {
+			continue
+		}
+		src := string(b)
+		for _, q := range []byte{'`', '"'} {
+			parts := strings.Split(src, string(q))
+			for i := 1; i < len(parts); i += 2 {
+				lit := parts[i]
+				if len(lit) < 3 || len(lit) > 400 || seen[lit] || (q == '"' && strings.Contains(lit, "\n")) {
+					continue
+				}
+				if strings.ContainsAny(lit, "()[]") || strings.Contains(lit, " + ") || strings.Contains(lit, "&&") {
+					seen[lit] = true
+					out = append(out, lit)
+				}
+			}
+		}
+	}
+	if len(out) > 600 {
+		out = out[:600]
+	}
+	return out
+}
+
 // FuzzC06 is the byte-level layer: first two bytes select notation and options.
 func FuzzC06(f *testing.F) {
 	seeds := []string{
@@ -444,6 +479,7 @@ func FuzzC06(f *testing.F) {
 		`a + b * 2 > 3 && !x`, `if(a > 1, [1 2 3], [])`, `f(a, b + 1, !c)`, ";;;; optimize:false\n(or a b)",
 		`(overlap (1 2 3) li0)`, `(to_version "1.2.3" 3)`, `(date "2021-01-01")`, `(= (1 2) (1 2))`, `1 +`, `[`, `! ! a`, "",
 	}
+	seeds = append(seeds, repoTestStrings()...)
 	for _, s := range seeds {
 		for _, o := range []byte{0, 1, 2, 3} {
 			f.Add(append([]byte{o, 0x0f}, s...))
